@@ -196,6 +196,8 @@ def election_case(
     n_cls = draw(st.integers(1, 3))
     county_cls = [draw(st.integers(0, n_cls - 1)) for _ in counties]
     n_dist = draw(st.integers(1, 3)) if district else 0
+    # real district ids are numbers without padding ("1", "10", "100"): one id may be a prefix of another
+    dist_names = draw(st.sampled_from([["d1", "d2", "d3", "d9"], ["1", "10", "2", "100"]])) if district else []
     blocked_state = None
     if allow_state_blocklist and n_states > 1 and draw(st.integers(0, 7)) == 0:
         blocked_state = states[-1]
@@ -204,7 +206,7 @@ def election_case(
 
     need = min_units(pi, alphas)
     if exact_reporting is not None:
-        n_rep = exact_reporting if isinstance(exact_reporting, int) else draw(exact_reporting)(need)
+        n_rep = exact_reporting if isinstance(exact_reporting, int) else max(0, need + draw(exact_reporting))
     else:
         n_rep = need + 2 + draw(st.integers(slack[0], slack[1])) + (6 if outl else 0)
     n_other = draw(st.integers(min_nonrep, max_other))
@@ -246,7 +248,7 @@ def election_case(
         rng = unit_noise(noise_seed, i)
         k = per_county_counter.get(ci, 0) + 1
         per_county_counter[ci] = k
-        dist = f"d{(int(rng.integers(0, n_dist)) + 1)}" if district else None
+        dist = dist_names[int(rng.integers(0, n_dist))] if district else None
         uid = f"{dist}_{county}_p{k}" if district else f"{county}_p{k}"
         x1 = round(float(rng.normal(0, 1)), 4)
         x2 = round(float(rng.normal(0, 1)), 4)
@@ -331,7 +333,7 @@ def election_case(
             cands = [c for (ss, c) in counties if ss == s]
             county = cands[draw(st.integers(0, len(cands) - 1))] if known_county and cands else f"{si + 1}9{k}"
             if district:
-                dist = f"d{draw(st.integers(1, n_dist))}" if draw(st.booleans()) else "d9"
+                dist = dist_names[draw(st.integers(0, n_dist - 1))] if draw(st.booleans()) else dist_names[3]
                 uid = f"{dist}_{county}_x{k}"
             else:
                 uid = f"{county}_x{k}"
